@@ -13,8 +13,12 @@ def chunkings(rng, data: bytes):
     r = rng.random()
     if n == 0:
         return [b""]
-    if r < 0.2:
+    if r < 0.2 and n <= 800:
         cuts = list(range(1, n))  # byte by byte
+    elif r < 0.2:
+        # long streams: byte by byte through the first 64 octets and the last 16 (the extracted model keeps a
+        # snapshot per call; thousands of calls on kilobytes of pending data exhaust its memory)
+        cuts = list(range(1, 64)) + list(range(n - 16, n))
     elif r < 0.3:
         cuts = [1] if n > 1 else []
     else:
@@ -77,7 +81,7 @@ class C02(SessionProp):
                     pre.append([C_SEARCH] + op[1:] + [[]])
                     kinds.append("search")
                 else:
-                    pre.append([C_EXT, b"1.2.3", [], []])
+                    pre.append([C_EXT, rng.choice([b"1.2.3", b"1.3.6.1.4.1.1466.20037"]), [], []])
                     kinds.append("other")
             for i, k in enumerate(kinds, start=1):
                 if k == "search":
@@ -90,6 +94,8 @@ class C02(SessionProp):
                     op = msgs.g_op(rng, 8)
                     if op[2] == [msgs.OID_NOTICE]:
                         op[2] = []
+                    if rng.random() < 0.5:
+                        op[1][0] = 0  # success
                     ms.append([i, op, msgs.g_controls(rng)])
             if rng.random() < 0.5:
                 rng.shuffle(ms)
